@@ -315,13 +315,26 @@ CONFIG = {
                       "SetBytes/Bytes are the little-endian codec of the canonical residue (same encoding iff same residue), and Equal/IsNegative/"
                       "Select/Swap their definitions. The translated field code is executed by scdriver on every field operation of the stream "
                       "(raw limbs in, raw limbs out, arbitrary 64-bit limbs included) and compared with the Go code. "
-                      "Absolute and the soundness of SqrtRatio (non-negative result; whenever a square is reported, v·r² = u in ZMod p) are proved too "
-                      "(Proofs/FeAbs, FeField, FeSqrt); PARTIAL for the rest: completeness of SqrtRatio (Euler's criterion) is not proved; the point formulas, point decoding, "
-                      "the table-driven scalar multiplications and SetBytesWithClamping are not translated; they are covered by the differential "
-                      "stream only (signatures/keys against crypto/ed25519 and the Lean RFC 8032 model, and the bulk random search against math/big). "
+                      "Absolute, SqrtRatio (sound and complete), the point formulas and the point codec are translated (extract/cmd/edpoints -> "
+                      "Generated/EdPoints.lean) and proved too (Proofs/FeAbs, FeSqrt, FeSqrtComplete, EdPoints, EdDecode, EdComplete: 2^255-19 is prime, d is a "
+                      "non-square, the addition law is complete, Point.Add is the affine twisted-Edwards sum on valid points, the decoder accepts exactly "
+                      "encodings of curve points). The affine law is a commutative group law — closure, neutral element, inverses and ASSOCIATIVITY are "
+                      "proved over any field in which the law is complete (Proofs/EdAssoc; polynomial certificates computed with sympy, checked by the "
+                      "kernel) — so the curve points are an AddCommGroup whose + and - are the translated Point.Add and Point.Negate (Proofs/EdGroup). "
+                      "The digit recodings are modelled literally (Model/Recode.lean: int8 wrap-around, word/shift window extraction, the pos/carry "
+                      "loop) and proved for every 32-byte scalar with the top bit clear: signedRadix16 returns 64 digits in [-8,8) (top digit in [0,8]) with "
+                      "value the scalar; nonAdjacentForm(w), 2<=w<=8, returns 256 digits, each zero or odd with |d| < 2^(w-1), with value the scalar; "
+                      "both equal the number-level expansions (Proofs/Recode). The three multiplication loops and four tables of scalarmult.go/tables.go "
+                      "are written over an abstract group (Model/ScalarMultAlg.lean) and proved to compute k•Q, k•B and a•A+b•B in every commutative "
+                      "group, with no table index out of range (Proofs/ScalarMultAlg; composed in Props/C14Mult). The recodings, loops and tables are "
+                      "hand-written models tied by (a) a statement-level pin of the 15 Go functions regenerated on every run (extract/cmd/skeleton with "
+                      "loop headers vs Proofs/SkelScalarMult, rfl), (b) execution: c14.dg runs the literal recoding model (scdriver) and the number-level "
+                      "one (driver) against the Go recodings, c14.sm the multiplications against the RFC 8032 reference and math/big. "
+                      "PARTIAL: that the Go loops, which move between P1xP1/P2/P3/cached coordinates, refine the group-level loops step by step is not "
+                      "proved (each formula is proved on its own; the composition is pinned and executed), nor is SetBytesWithClamping. "
                       "Public keys must be 32 bytes (documented precondition).",
         "trusted_base": COMMON_TB + ["crypto/ed25519 as the reference", "PatVerif/Exec/Ed25519 (validated differentially)"],
-        "assumptions": ["point arithmetic and scalar multiplication refine the group law (observed)",
+        "assumptions": ["the coordinate-changing loops of scalarmult.go refine the group-level loops of Model/ScalarMultAlg.lean (pinned textually, executed; not proved)",
                         "Model/GoInt.lean reads Go's int64 +, -, *, <<, >>, & (2^j-1), | and byte() correctly where the generated side conditions hold",
                         "Model/GoU64.lean reads Go's uint64 operators, bits.Mul64/Add64 and binary.LittleEndian correctly; felimbs' functional reading "
                         "of pointer code is right where its alias check passes"],
@@ -344,7 +357,12 @@ CONFIG = {
         "level_note": "Unblinding inverts blinding on the prime-order subgroup only (hypothesis n•A = 0). The scalar side of blinding — SetBytes of the "
                       "digest's first 32 bytes (any 32 bytes, reduced mod L), Multiply, MultiplyAdd, ModInverse's inputs — is the translated and proved limb "
                       "code of C14 (Generated/ScLimbs.lean, Proofs/ScScalar); the field arithmetic under the point operations is translated and proved "
-                      "too (Generated/FeLimbs.lean, Proofs/Fe*, see C14); the point formulas and scalar multiplications are not.",
+                      "too (Generated/FeLimbs.lean, Proofs/Fe*, see C14), so are the point formulas (Generated/EdPoints.lean; the curve points form a commutative group "
+                      "under the translated Point.Add, associativity included: Proofs/EdAssoc, EdGroup). ScalarMult — the operation blinding and unblinding "
+                      "perform on the key — is signedRadix16 (literal model, proved: Proofs/Recode) followed by the table-driven loop (abstract-group model, "
+                      "proved to compute x•Q in every commutative group: Proofs/ScalarMultAlg, Props/C14Mult); both models are pinned statement by statement "
+                      "to scalar.go/scalarmult.go/tables.go on every run and executed against the Go code (c14.dg, c14.sm). Not proved: the step-by-step "
+                      "refinement of the coordinate-changing Go loop to the group-level loop, and ModInverse (math/big).",
         "trusted_base": COMMON_TB + ["Mathlib", "PatVerif/Exec/Ed25519"],
         "assumptions": ["A lies in the prime-order subgroup for unblind_blind",
                         "Model/GoInt.lean reads Go's int64 operators correctly where the generated side conditions hold"],
